@@ -151,7 +151,10 @@ theorem triPixels_in_box (t : Tri) (style : TriStyle) (bb : Rect)
     (px : List (Pt × Nat)) (hpx : triPixels t style = some px) :
     ∀ pc ∈ px, bb.contains pc.1 = true := by
   unfold triPixels at hpx
-  rw [hbb] at hpx
+  cases hfuel : triPixelFuel t style with
+  | none => rw [hfuel] at hpx; cases hpx
+  | some fuel0 =>
+  rw [hfuel] at hpx
   simp only [Option.bind_eq_bind, Option.bind_some] at hpx
   cases hnew : TriPixels.new t style with
   | none => rw [hnew] at hpx; cases hpx
@@ -168,7 +171,7 @@ theorem triPixels_in_box (t : Tri) (style : TriStyle) (bb : Rect)
       · -- the empty iterator: nothing is yielded
         subst he
         rw [TriScanlines.empty_next] at hnew
-        simp only [Option.bind_some, pure, Option.some.injEq] at hnew
+        simp only [Option.bind_some, pure, Option.getD_none, Option.some.injEq] at hnew
         subst hnew
         rw [TriPixels.empty_toListFuel] at hpx
         cases hpx
@@ -179,16 +182,18 @@ theorem triPixels_in_box (t : Tri) (style : TriStyle) (bb : Rect)
           | none => rw [hn] at hnew; cases hnew
           | some x =>
             rw [hn] at hnew
-            cases x with
+            obtain ⟨first, si2⟩ := x
+            cases first with
             | none =>
-              simp only [Option.bind_some, pure, Option.some.injEq] at hnew
+              simp only [Option.bind_some, pure, Option.getD_none, Option.some.injEq] at hnew
               subst hnew
-              exact ⟨Or.inr hinv, lineOK_newEmpty _ _ _ _ _⟩
+              exact ⟨Or.inr (TriScanlines.next_none_inv hctx si hinv si2 hn), lineOK_newEmpty _ _ _ _ _⟩
             | some y =>
-              obtain ⟨⟨l, ty⟩, si2⟩ := y
-              simp only [Option.bind_some, pure, Option.some.injEq] at hnew
+              obtain ⟨l, ty⟩ := y
+              simp only [Option.bind_some, pure, Option.getD_some, Option.some.injEq] at hnew
               subst hnew
-              obtain ⟨a, b⟩ := TriScanlines.next_inv hctx si hinv l ty si2 hn
+              obtain ⟨a, b⟩ := TriScanlines.next_inv hctx si hinv l ty si2
+                ((TriScanlines.next_some_iff si si2 (l, ty)).mp hn)
               exact ⟨Or.inr a, Or.inr b⟩
         -- drain
         have key : ∀ (fuel : Nat) (it : TriPixels),
